@@ -20,6 +20,8 @@ CLAIMED = {
          "MIR-driver rules: construction-site enumeration + guard dominance, evaluated static table, regex->DFA language equivalence"),
  "C17": ("other", "Status and wire tables of ErrorCode against the specification; safe/unsafe partition decided by control dependence on the membership test with maps identified by the field they are stored in; propagated errors pass a constant empty safe list; encode() wiring by dataflow; scalar stringification visitor set exact; generated ErrorType impls of the instance joined with the IR (both configs) and the standard types checked for consistency.", "4/C17",
          "MIR-driver rules: decision tables from discriminant switches, control dependence, dataflow, trait-surface exactness, IR join"),
+ "C06": ("other", "Must-pass-through on both request deserializers (encoding lookup, bounded read with Some(N), deserialize over that buffer, end-of-input validation, each by success-edge dominance and dataflow identity), limit typestate over read_body/async_read_body as a path property on the CFG (no path from a data-adding event to an Ok return avoids the success edge of the limit check on the same accumulator), exact len > limit rejection, stream errors consumed only through `?`, error class by type argument, optional/binary/lookup tables, blocking/async twin agreement, panic inventory.", "4/C06",
+         "MIR-driver rules: dominance / must-pass-through, typestate as CFG path property, dataflow identity, twin agreement"),
 }
 NA = {
  "C11": "Content negotiation quantifies over parsed header lists and numeric q-values; its truth lives in comparator outcomes, not in the shape of the code. The structural clauses in reach are decided under C06/C04; a mirror of this implementation's iterator chain would be a brittle proxy (DESIGN.md section 4/C11).",
